@@ -222,7 +222,7 @@ def run(prop, tier):
             pool = ServerPool(exe, td, ["-l"])
             pool.meta = system.meta if "system" in dir() else None
             try:
-                depth = 2
+                depth = 3 if tier == "deep" else 2
                 restrict = None
                 if tier == "quick":
                     # depth 2 only within the category of the first enter event
@@ -425,14 +425,14 @@ def run(prop, tier):
             finally:
                 pool.close()
         ctx.part("labels", checked=nlabels)
-        ctx.cov["rule"] = ("per model: every state = open-region stacks (depth <= 2) of a running thread; in every state every documented "
+        ctx.cov["rule"] = ("per model: every state = open-region stacks (depth <= 2; deep plan 3) of a running thread; in every state every documented "
                            "argument-less event of the model is probed (matching leave accepted, any other leave refused, enter accepted; "
                            "immediate re-entry either way) and the thread and CPU rows must show the golden value of the innermost region; "
                            "a product walk over two threads (depth <= 1 each) for per-thread independence; plus state preconditions, lint on open regions (one thread; two threads with the open region on either and either ending last), "
                            "one depth-512 path and .pcf labels")
         ctx.cov["distinct_nontrivial"] = ctx.cov["states"]
         ctx.assumptions += ["golden/enter_values.json (event -> type,value,label) frozen after manual review against the documented descriptions",
-                            "events with arguments (tasks, types) are covered by C07/C18", "nesting depth <= 2 plus one depth-512 path per model"]
+                            "events with arguments (tasks, types) are covered by C07/C18", "nesting depth <= 2 (deep plan: 3) plus one depth-512 path per model"]
         return ctx.finish()
     finally:
         scratch.cleanup()
